@@ -104,7 +104,8 @@ ENTRIES: list[Entry] = [
     Entry('timer', 'kopf/_core/engines/daemons.py', '_timer', {
         'initial_delay_check': r'if handler\.initial_delay is not None',
         'main_loop': r'while not stopper\.is_set\(\)',
-        'reset_if_done': r'if state\.done and \(not state\[handler\.id\]\.failure\)',
+        'no_state_yet': r'state: progression\.State \| None = None',
+        'reset_if_done': r'if state is None or \(state\.done and \(not state\[handler\.id\]\.failure\)\)',
         'fresh_state': r'state = progression\.State\.from_scratch\(\)\.with_handlers\(\[handler\]\)',
         'idle_check': r'if handler\.idle is not None',
         'idle_wait': r'while not stopper\.is_set\(\) and clock\(\) - memory\.idle_reset_time < handler\.idle',
